@@ -13,7 +13,11 @@ Modelled function by function, as the code is NOW:
   `ChangingIndex`, `IndexAsScalar`;
 * the quantities they need: `ObtainQuantity(unit, category)`, `Quantity.__init__` (simple branch),
   `GetDefaultCategory`, `Quantity.Convert` / `ConvertScalarValue`, `Scalar.CreateCopy`;
-* `Curve.__init__`, `_CheckImageAndDomainLength`, `SetImage`, `SetDomain`.
+* `Curve.__init__`, `_CheckImageAndDomainLength`, `SetImage`, `SetDomain`, `GetLength`, `__getitem__` (index and
+  slice, with Python's `slice.indices`), `__repr__` (which pairs are shown, the ellipsis; not the digits);
+* the rest of the public surface of a FixedArray: `__len__`, `__iter__`, `__getitem__` (index and slice), the public
+  `CheckValues`, `__eq__`, extra keywords of `CreateCopy`, `CreateCopyInstance`, and the inherited classmethod
+  `FromScalars` (which cannot build a FixedArray).
 
 Objects are immutable values here (no method of the modelled classes assigns to `self` after
 construction); that the real operations do not write into their source is checked by the
